@@ -134,6 +134,8 @@ def check_accounting(case, workdir):
     if run["rc"] != 0:
         return r.fail("run failed rc=%s: %s" % (run["rc"], run["out"][-600:].replace("\n", " | ")))
     recs = cmirun.parse_kv_lines(os.path.join(workdir, "verif_accounting.txt"))
+    # everything below is read off the accounting records of this run
+    r.schedule_dependent = case["threads"] > 1
     begins = [x for x in recs if x["phase"] == "begin"]
     ends = [x for x in recs if x["phase"] == "end"]
     if len(begins) != case["iterations"] or len(ends) != case["iterations"]:
